@@ -609,6 +609,9 @@ def _params(fn):
     return a.posonlyargs + a.args, a.kwonlyargs
 
 
+_INLINED = []     # names of helpers whose body was substituted for a call (collected per normalise() run)
+
+
 def _inline_wrappers(tree):
     mod_defs, counts = {}, {}
     for st in tree.body:
@@ -689,10 +692,60 @@ def _inline_wrappers(tree):
                     return None
         return h, bind, isinstance(body[0], ast.Return)
 
+    # methods:  def m(self, ...): return self.h(<simple args>)   with h a plain method of the same class, defined once
+    cls_methods = {}
+    for cd in [n for n in ast.walk(tree) if isinstance(n, ast.ClassDef)]:
+        cnt = {}
+        for st in cd.body:
+            if isinstance(st, ast.FunctionDef):
+                cnt[st.name] = cnt.get(st.name, 0) + 1
+        for st in cd.body:
+            if isinstance(st, ast.FunctionDef) and cnt[st.name] == 1 and not st.decorator_list:
+                cls_methods[(id(cd), st.name)] = st
+        for st in cd.body:
+            if isinstance(st, ast.FunctionDef):
+                st._uxsa_class = cd
+
+    def method_candidate(w):
+        cd = getattr(w, "_uxsa_class", None)
+        if cd is None or not w.args.args:
+            return None
+        selfn = w.args.args[0].arg
+        body = list(w.body)
+        if body and isinstance(body[0], ast.Expr) and isinstance(body[0].value, ast.Constant) and isinstance(body[0].value.value, str):
+            body = body[1:]
+        if len(body) != 1 or not isinstance(body[0], ast.Return) or not isinstance(body[0].value, ast.Call):
+            return None
+        call = body[0].value
+        if not (isinstance(call.func, ast.Attribute) and isinstance(call.func.value, ast.Name) and call.func.value.id == selfn):
+            return None
+        h = cls_methods.get((id(cd), call.func.attr))
+        if h is None or h is w or not h.args.args:
+            return None
+        # rewrite as a call of a plain function with self passed explicitly, then reuse the module-level machinery
+        fake = ast.Call(func=ast.Name(id="__method__", ctx=ast.Load()), args=[ast.Name(id=selfn, ctx=ast.Load())] + list(call.args), keywords=list(call.keywords))
+        return h, fake
+
     for _round in range(3):
         changed = False
         for w in [n for n in ast.walk(tree) if isinstance(n, ast.FunctionDef)]:
-            c = candidate(w)
+            mc = method_candidate(w)
+            if mc is not None:
+                h, fake = mc
+                saved = (counts.get("__method__"), mod_defs.get("__method__"))
+                counts["__method__"], mod_defs["__method__"] = 1, h
+                real_body = w.body
+                doc = [w.body[0]] if (w.body and isinstance(w.body[0], ast.Expr) and isinstance(w.body[0].value, ast.Constant) and isinstance(w.body[0].value.value, str)) else []
+                w.body = doc + [ast.copy_location(ast.Return(value=fake), real_body[-1])]
+                c = candidate(w)
+                w.body = real_body
+                if saved[0] is None:
+                    counts.pop("__method__", None)
+                    mod_defs.pop("__method__", None)
+                else:
+                    counts["__method__"], mod_defs["__method__"] = saved
+            else:
+                c = candidate(w)
             if c is None:
                 continue
             h, bind, is_ret = c
@@ -709,6 +762,7 @@ def _inline_wrappers(tree):
             w.body = doc + new_body
             done += 1
             changed = True
+            _INLINED.append(h.name)
         if not changed:
             break
     return done
@@ -906,6 +960,7 @@ def _inline_noreturn(tree):
 
 
 def normalise(tree):
+    del _INLINED[:]
     n_alias = n_upd = 0
     n_dict = 0
     for fn in [n for n in ast.walk(tree) if isinstance(n, (ast.FunctionDef, ast.AsyncFunctionDef))]:
@@ -940,4 +995,4 @@ def normalise(tree):
     _Updates().visit(tree)
     n_upd = sum(1 for n in ast.walk(tree) if isinstance(n, ast.Assign)) - before
     ast.fix_missing_locations(tree)
-    return tree, {"aliases_inlined": n_alias, "update_keys_split": n_upd, "table_loops_unrolled": n_unrolled, "wrappers_inlined": n_inlined, "expression_helpers_inlined": n_expr, "noreturn_helpers_inlined": n_noret, "flags_inlined": n_flags, "dict_literals_propagated": n_dict, "any_all_expanded": aa.count}
+    return tree, {"aliases_inlined": n_alias, "update_keys_split": n_upd, "table_loops_unrolled": n_unrolled, "wrappers_inlined": n_inlined, "expression_helpers_inlined": n_expr, "noreturn_helpers_inlined": n_noret, "flags_inlined": n_flags, "dict_literals_propagated": n_dict, "any_all_expanded": aa.count, "inlined_helpers": sorted(set(_INLINED))}
